@@ -112,8 +112,9 @@ static bool stub_purge(void* p, size_t size, bool allow_reset) {
 }
 bool _mi_os_purge(void* p, size_t size) { return stub_purge(p, size, true); }
 bool _mi_os_purge_ex(void* p, size_t size, bool allow_reset, size_t stat_size) { return stub_purge(p, size, allow_reset); }
+static uint8_t* commit_lo; static uint8_t* commit_hi;
 bool _mi_os_commit_ex(void* addr, size_t size, bool* is_zero, size_t stat_size) {
-  commit_calls++;
+  commit_calls++; commit_lo = (uint8_t*)addr; commit_hi = (uint8_t*)addr + size;
   if (is_zero != NULL) *is_zero = false;
   if (nd_bool()) { commit_fails = true; return false; }      /* the OS may refuse */
   if (is_zero != NULL) *is_zero = nd_bool();
@@ -291,6 +292,11 @@ void h_arena_alloc_at(void) {
     if (memid.initially_committed) { CHECK(commit || (comm0 & m) == m, "committed only if requested or already committed"); CHECK(!commit_fails, "C07: a refused commit is recorded (never reported as committed)"); }
     if (commit && (comm0 & m) != m && commit_fails) { CHECK(!memid.initially_committed, "C07: commit refusal -> memid says uncommitted"); WITNESS("commit refused"); }
     if (commit && (comm0 & m) == m) CHECK(memid.initially_committed && commit_calls == 0, "already committed range needs no OS call");
+    if (commit && (comm0 & m) != m) {
+      /* the OS commit must cover every block of the claimed range that was not committed before */
+      CHECK(commit_calls == 1, "one OS commit for a range with uncommitted blocks");
+      for (size_t b = 0; b < NB; b++) { if (((m >> b) & 1) && !((comm0 >> b) & 1)) CHECK(commit_lo <= a->start + b * MI_ARENA_BLOCK_SIZE && commit_hi >= a->start + (b + 1) * MI_ARENA_BLOCK_SIZE, "C13/C07: every uncommitted block of the claimed range is inside the range passed to the OS commit (a block marked committed really is)"); }
+    }
   } else CHECK(memid.initially_committed && commit_calls == 0, "pinned arenas are always committed");
   if (memid.initially_zero && a->memid.initially_zero && commit_calls == 0) CHECK((dirty0 & m) == 0, "C04: initially_zero only if no block of the range was used before");
   CHECK((A_DIRTY(a) & m) == m || !a->memid.initially_zero, "claimed blocks are marked dirty");
